@@ -50,8 +50,20 @@ func (s *seedReader) Read(p []byte) (int, error) {
 // MakeCert builds a deterministic self-signed certificate (ed25519: signing is deterministic, so the
 // transaction bytes - and with them gas use - are a function of the choices only).
 func MakeCert(cn string, serial *big.Int, nonce int, notBefore, notAfter time.Time) (certPEM, pubPEM []byte, der []byte, priv ed25519.PrivateKey) {
+	return MakeCertIssued(cn, cn, serial, nonce, notBefore, notAfter)
+}
+
+// MakeCertIssued: as MakeCert; when issuerCN differs from cn the certificate is not self-signed: it names
+// cn as its subject and is issued (signed) by a key of issuerCN.
+func MakeCertIssued(cn, issuerCN string, serial *big.Int, nonce int, notBefore, notAfter time.Time) (certPEM, pubPEM []byte, der []byte, priv ed25519.PrivateKey) {
 	seed := sha256.Sum256([]byte(fmt.Sprintf("verif-cert-key|%s|%s|%d", cn, serial, nonce)))
 	priv = ed25519.NewKeyFromSeed(seed[:])
+	signer, parent := priv, (*x509.Certificate)(nil)
+	if issuerCN != cn {
+		iseed := sha256.Sum256([]byte(fmt.Sprintf("verif-issuer-key|%s", issuerCN)))
+		signer = ed25519.NewKeyFromSeed(iseed[:])
+		parent = &x509.Certificate{SerialNumber: big.NewInt(77), Subject: pkix.Name{CommonName: issuerCN}, KeyUsage: x509.KeyUsageCertSign, IsCA: true, BasicConstraintsValid: true}
+	}
 	tmpl := x509.Certificate{
 		SerialNumber:          serial,
 		Subject:               pkix.Name{CommonName: cn},
@@ -63,7 +75,10 @@ func MakeCert(cn string, serial *big.Int, nonce int, notBefore, notAfter time.Ti
 		BasicConstraintsValid: true,
 	}
 	var err error
-	der, err = x509.CreateCertificate(&seedReader{state: seed}, &tmpl, &tmpl, priv.Public(), priv)
+	if parent == nil {
+		parent = &tmpl
+	}
+	der, err = x509.CreateCertificate(&seedReader{state: seed}, &tmpl, parent, priv.Public(), signer)
 	if err != nil {
 		panic(err)
 	}
@@ -89,7 +104,30 @@ func (g *gen) createCert() *Op {
 	}
 	serial := certSerials[r.Choose(len(certSerials), "cc.serial")]
 	g.vctr++
-	cert, pub, _, _ := MakeCert(cn, serial, g.vctr, g.w.Time.Add(-time.Hour), g.w.Time.Add(365*24*time.Hour))
+	// validity windows of every kind relative to block time and to any wall clock: the chain stores
+	// certificates whatever their validity period is
+	ends := []time.Time{g.w.Time.Add(365 * 24 * time.Hour), g.w.Time.Add(time.Minute), time.Date(2001, 1, 1, 0, 0, 0, 0, time.UTC),
+		time.Date(2012, 6, 1, 0, 0, 0, 0, time.UTC), time.Date(2024, 1, 1, 0, 0, 0, 0, time.UTC), time.Date(2031, 1, 1, 0, 0, 0, 0, time.UTC), time.Date(2090, 1, 1, 0, 0, 0, 0, time.UTC)}
+	notAfter := ends[r.Weighted([]int{6, 1, 1, 1, 1, 1, 1}, "cc.not-after")]
+	notBefore := g.w.Time.Add(-time.Hour)
+	if !notAfter.After(notBefore) {
+		notBefore = notAfter.Add(-24 * time.Hour)
+	}
+	issuer := cn
+	if r.Bool(10, "cc.issued-by-other") {
+		// not self-signed: subject and issuer name different accounts; one of the two submits it
+		other := g.anyActor("cc.issuer")
+		if other.Bech != cn {
+			if r.Bool(50, "cc.issuer-submits") {
+				issuer, cn = owner.Bech, other.Bech
+				what = "issued-by-the-submitter-but-names-" + other.Name + " "
+			} else {
+				issuer = other.Bech
+				what += "issued-by-" + other.Name + " "
+			}
+		}
+	}
+	cert, pub, _, _ := MakeCertIssued(cn, issuer, serial, g.vctr, notBefore, notAfter)
 	// somebody else's already registered certificate, submitted verbatim under the own name
 	pctReplay := 8
 	if v := g.bias["cert.replay-foreign"]; v > 0 {
@@ -175,7 +213,12 @@ func (cs *checkerSet) c17Tx(c *TxCtx) *core.Violation {
 				r.Count("probe:cert-serial-wide")
 			}
 		} else if named && !exists {
-			r.Count("probe:fresh-registration-rejected") // not demanded by the property; counted for the evidence
+			r.Count("probe:fresh-registration-rejected") // success is not demanded by the property; counted for the evidence
+			// ... but the reason given must not be that the pair exists: uniqueness is per (owner, serial)
+			if c.Res.Codespace == ctypes.ErrCertificateExists.Codespace() && c.Res.Code == ctypes.ErrCertificateExists.ABCICode() {
+				return r.Flag("C17/distinct-serial-treated-as-duplicate", "%s registering serial %s (never registered by this owner) was refused with %q",
+					c.W.ActorByAddr(m.Owner).Name, x.SerialNumber, c.Res.Log)
+			}
 		}
 	case *ctypes.MsgRevokeCertificate:
 		serial, okS := new(big.Int).SetString(m.ID.Serial, 10)
